@@ -524,6 +524,8 @@ def c11(ctx):
     stateless(ctx, "Spl", {"SplNew", "SplLin"}, case_filter=lambda c: c["op"] == "SplNew" or len(c["cs"]) != len(c["ss"]) or len(c["ss"]) <= 1)
     stateless(ctx, "Gen", {"Gen"}, case_filter=lambda c: c["p"] <= 2)
     stateless(ctx, "Interp", {"Interp"})
+    # special floating-point values (NaN, +/-Inf, -0.0) in float, double and long double grids
+    stateless(ctx, "Fp", {"FpGridNew"}, variant="fp", build_as="fp_plain")
 
 
 def c03(ctx):
